@@ -31,3 +31,14 @@ DELIVERABLES (files, all inside {wt}/.scratch/out/):
   demo/        — the demonstration (files + a run.sh that exits non-zero when the property is broken and 0 when it holds; run.sh takes the path of the gengo checkout to test as $1 and must not depend on the current directory)
   meta.json    — {{"property": "{pid}", "summary": "...what the change does...", "needs_to_manifest": "...the specific input/sequence/interleaving/fault needed...", "why_tests_still_pass": "...", "commands_run": ["..."]}}
 Finish by restoring the worktree to a clean state EXCEPT for the untracked .scratch directory (`git checkout -- .`), and reply with a short summary: what the change is, what is needed to trigger it, and confirmation of (a), (b), and that the demo fails with / passes without the change.""")
+import glob, os
+taken = []
+for d in sorted(glob.glob(f'/verif/seeded/{pid}-*/meta.json')):
+    try:
+        taken.append(json.load(open(d)).get('summary', '')[:220].replace('\n', ' '))
+    except Exception:
+        pass
+if taken and os.environ.get('AVOID', '1') == '1':
+    print("\nIDEAS ALREADY TAKEN by earlier participants (produce something DIFFERENT in mechanism and in the code site it touches, not a variation of these):")
+    for t in taken:
+        print("  - " + t + " ...")
